@@ -200,11 +200,18 @@ def do_query(ctx, b, kind, rel, extra):
     if kind == 'exists':
         return b.exists(p)
     if kind == 'list_dir':
-        return sorted(b.list_dir(p))
+        raw = b.list_dir(p)
+        out = sorted(raw)
+        if ctx.mutate:
+            scramble(raw)        # C11: the object the library handed out, not our sorted copy
+        return out
     if kind == 'walk':
         out = []
-        for d, subdirs, subfiles in b.walk(p, extra):
+        raw = b.walk(p, extra)
+        for d, subdirs, subfiles in raw:
             out.append((ctx.show_abs(d), list(subdirs), list(subfiles)))
+        if ctx.mutate:
+            scramble(raw)        # C11: prune/extend the nested lists of the object the library handed out
         return out
     if kind == 'get_size':
         # sizes of directories are platform specific (see FB/DSL.lean)
